@@ -214,7 +214,7 @@ def is_lock(out):
     return "error" in out and out["error"][0] == "OperationalError" and "database is locked" in out["error"][1]
 
 
-def run_in_child(job: dict, timeout=120):
+def run_in_child(job: dict, timeout=90):
     """run one program (all its rounds) in a child interpreter: used for process-executor programs, bounded in time"""
     env = dict(os.environ)
     p = subprocess.run([sys.executable, "-m", "harness.props.c38", "--child"], input=json.dumps(job), text=True,
@@ -935,6 +935,10 @@ class Check(PropertyCheck):
         for rec in getattr(self, "runs", []):
             spec = rec["spec"]
             rp = {"kind": "program", "spec": repr(spec), "caches": rec["caches"], "context": rec["context"], "proc": rec["proc"]}
+            if rec.get("child_failed") == "timeout":
+                # a process-executor program that did not finish in time: inconclusive, never a verdict
+                self.stat("oracle", "process-executor programs without an outcome in time (inconclusive)")
+                continue
             if rec.get("child_failed"):
                 nb += 1
                 self.findings.append(Finding(f"no-outcome:{spec!r}"[:200], f"the run did not finish: {rec['child_failed'][-300:]}", rp))
